@@ -23,7 +23,8 @@ RULE_TEXT = ("C03-V sibling agreement of the conversion impls in value.rs, arm b
              "UnexpectedNumberOfParameters with nothing else; otherwise args.get(j).try_into()? for j = 0..n-1 in order, "
              "all before the handler call whose operands they are. C03-N no Result of push/try_into/from_str_radix/parse "
              "is discarded; the argument vector's overflow is reported."
-             " C03-PR: the contracts of the parser combinators the skeleton builds on are read from their bodies - satisfy (accept first byte iff pred / soft error / Incomplete on empty), take_while (never fails; longest prefix, position() form or counting-loop form), optional (never fails; Some(value) or input untouched), tag(b) = satisfy(== b). C03-C12I: the Incomplete discipline of the data recognisers (rule C12-I).")
+             " C03-PR: the contracts of the parser combinators the skeleton builds on are read from their bodies - satisfy (accept first byte iff pred / soft error / Incomplete on empty), take_while (never fails; longest prefix, position() form or counting-loop form), optional (never fails; Some(value) or input untouched), tag(b) = satisfy(== b). C03-C12I: the Incomplete discipline of the data recognisers (rule C12-I)."
+             " C03-K: the buffer discipline of process (rules K1-K7 of C07) - the bytes of a message reach the parser as sent.")
 
 V = "microscpi::value::Value::"
 E = "microscpi::error::Error::"
@@ -46,6 +47,10 @@ def run(ck):
     import c12
     with ck.under("C12-", "C03-C12"):
         c12.rule_I(ck, lib, skeleton.Skeleton(ck, lib))
+    # ... and the bytes of a message reach the parser as they were sent, whatever the read boundaries: the buffer
+    # discipline of process (K-rules of C07)
+    import c07
+    c07.rule_K(ck, lib, "C03-K")
 
 
 def impl_fn(lib, self_ty, target):
